@@ -34,6 +34,9 @@ func verifMiniWorld() []dnsdata.VerifRec {
 		{Kind: 'Z', Dom: []byte("z"), Target: []byte("ns.z")},
 		{Kind: '&', Dom: []byte("z"), Target: []byte("ns.z"), IP: []byte{192, 0, 2, 1}},
 		{Kind: '@', Dom: []byte("m.z"), Target: []byte("mx.z"), Dist: 10, IP: []byte{192, 0, 2, 25}},
+		// a name with two addresses: its answer is a weighted selection
+		{Kind: '+', Dom: []byte("w.z"), IP: []byte{192, 0, 2, 31}, Weight: 1},
+		{Kind: '+', Dom: []byte("w.z"), IP: []byte{192, 0, 2, 32}, Weight: 1},
 	}
 }
 
@@ -160,6 +163,7 @@ func H05_sched() {
 			q.Id = uint16(i)
 			q.Question = []dns.Question{{Name: "m.z.", Qtype: dns.TypeMX, Qclass: dns.ClassINET}}
 			w := &verifWriter{remote: verifClientIPs[2]}
+			nd.Yield() // between two queries of the client anything may happen (a whole reload, for instance)
 			atStart := verifInstalled
 			verifStarted++
 			verifInflight = true
